@@ -14,6 +14,7 @@ import DateutilVerif.Ops.Parser
 import DateutilVerif.Ops.ParserGen
 import DateutilVerif.Ops.QueryOps
 import DateutilVerif.Ops.RRule
+import DateutilVerif.Ops.RRuleGen
 import DateutilVerif.Ops.RRuleStr
 import DateutilVerif.Ops.RRuleStrGen
 import DateutilVerif.Ops.RSetOps
@@ -31,7 +32,7 @@ import DateutilVerif.Ops.Weekday
 import DateutilVerif.Ops.Zones
 
 def handlers : List (String → List String → Option String) :=
-  [Ops.Base.handle, Ops.CacheOps.handle, Ops.Factory.handle, Ops.GettzGen.handle, Ops.ICal.handle, Ops.IsoParser.handle, Ops.NestedOps.handle, Ops.Parser.handle, Ops.ParserGen.handle, Ops.QueryOps.handle, Ops.RRule.handle, Ops.RRuleStr.handle, Ops.RRuleStrGen.handle, Ops.RSetOps.handle, Ops.ReduceOps.handle, Ops.RelativeDelta.handle, Ops.ReplaceOps.handle, Ops.ScanOps.handle, Ops.TzGen.handle, Ops.TzHelpGen.handle, Ops.TzLoadGen.handle, Ops.TzObjGen.handle, Ops.TzStr.handle, Ops.TzifGen.handle, Ops.Weekday.handle, Ops.Zones.handle]
+  [Ops.Base.handle, Ops.CacheOps.handle, Ops.Factory.handle, Ops.GettzGen.handle, Ops.ICal.handle, Ops.IsoParser.handle, Ops.NestedOps.handle, Ops.Parser.handle, Ops.ParserGen.handle, Ops.QueryOps.handle, Ops.RRule.handle, Ops.RRuleGen.handle, Ops.RRuleStr.handle, Ops.RRuleStrGen.handle, Ops.RSetOps.handle, Ops.ReduceOps.handle, Ops.RelativeDelta.handle, Ops.ReplaceOps.handle, Ops.ScanOps.handle, Ops.TzGen.handle, Ops.TzHelpGen.handle, Ops.TzLoadGen.handle, Ops.TzObjGen.handle, Ops.TzStr.handle, Ops.TzifGen.handle, Ops.Weekday.handle, Ops.Zones.handle]
 
 def dispatch (line : String) : String :=
   match (line.trimAscii.toString.splitOn " ").filter (· ≠ "") with
